@@ -421,6 +421,74 @@ def edit_history(seed, steps, start="random", big=False, dump_every=8, grow=Fals
     return g.text()
 
 
+def churn_history(seed, rounds=3):
+    """name tables / growth and compaction of the internal stores: add many named rows and columns (names of varied length),
+    delete most of them (by index lists, flags, names), add again; dumps in between (C06: names, indices, data must follow)"""
+    g = Gen(seed)
+    r = g.r
+    g.emit("scenario churn_%d" % seed)
+    g.emit("handler on")
+    g.create()
+    for rd in range(rounds):
+        nadd = r.choice([12, 30, 55, 70, 130])
+        plen = r.choice([1, 1, 3, 8, 20])
+        what = r.choice(["col", "row", "both"])
+        for k in range(nadd):
+            pre = ("v" if what != "row" else "r") * plen
+            if what in ("col", "both"):
+                g.namectr += 1
+                nm = "%s%d" % (pre, g.namectr)
+                lo, up = g.bounds()
+                g._bnd_add(lo, up)
+                if r.random() < .5 or g.m == 0:
+                    g.emit("new_col h0 %s %s %s %s" % (qstr(g.val()), lo, up, nm))
+                else:
+                    g.emit("add_col h0 %s %s %s %s %s" % (g.entstr(g.ent(g.m)), qstr(g.val()), lo, up, nm))
+                g.n += 1
+                g.cn.append(nm)
+            if what in ("row", "both") and (what == "row" or k % 3 == 0):
+                g.namectr += 1
+                nm = "%s%d" % ("r" * plen, g.namectr)
+                sn = r.choice("LGE")
+                g.emit("add_row h0 %s %s %s %s" % (g.entstr(g.ent(g.n)), qstr(g.val()), sn, nm))
+                g._row_added(nm, sn)
+        g.emit("dump h0")
+        # delete more than half
+        for cnt, names, isrow in ((g.n, g.cn, False), (g.m, g.rn, True)):
+            if cnt < 4:
+                continue
+            k = r.randint(cnt // 2, cnt - 1)
+            idx = sorted(r.sample(range(cnt), k))
+            kind = r.choice(["list", "flags", "named", "one"])
+            w = "row" if isrow else "col"
+            if kind == "list":
+                sh = idx[:]; r.shuffle(sh)
+                g.emit("delete_%ss h0 %d %s" % (w, len(sh), " ".join(map(str, sh))))
+            elif kind == "flags":
+                g.emit("delete_set%ss h0 %d %s" % (w, cnt, " ".join("1" if i in set(idx) else "0" for i in range(cnt))))
+            elif kind == "named" and all(x is not None for x in names):
+                g.emit("delete_named_%s h0 %d %s" % ("rows" if isrow else "columns", len(idx), " ".join(names[i] for i in idx)))
+            else:
+                for i in reversed(idx):
+                    g.emit("delete_%s h0 %d" % (w, i))
+            for i in reversed(idx):
+                del names[i]
+                if isrow:
+                    del g.sense[i]
+                elif g.bnd is not None:
+                    del g.bnd[i]
+            if isrow:
+                g.m -= len(idx)
+            else:
+                g.n -= len(idx)
+        g.emit("dump h0")
+    for _ in range(10):
+        g.op_query()
+    g.emit("dump h0")
+    g.emit("free h0")
+    return g.text()
+
+
 # ---------------------------------------------------------------------------------------------
 # C07: invalid-argument probes in every lifecycle state
 # ---------------------------------------------------------------------------------------------
